@@ -1,5 +1,6 @@
 import QV.Drive.Util
 import QV.Model.Bind
+import QV.Model.BindAnn
 /-! JSON handlers for C08 (`c08.*`): `bind` on program headers, `Sem` in both value algebras. -/
 namespace QV.Drive.C08
 open Lean QV QV.Bind QV.Drive
@@ -215,8 +216,41 @@ def tovalOp (j : Json) : R Json := do
   let v ← parsePyVal (← j.getObjVal? "value")
   pure (Json.mkObj [("ast", expJ (toVal v))])
 
+/-- annotation as written: `["name", id]`, `["sub", id, [elts]]`, `["int", v]`, `["other"]` -/
+partial def parseAnnE (j : Json) : R AnnE := do
+  match j with
+  | .arr a =>
+    match a.toList with
+    | [.str "name", .str s] => pure (.name s)
+    | [.str "sub", .str s, .arr l] => pure (.sub s (← l.toList.mapM parseAnnE))
+    | [.str "int", v] => pure (.int (← fromJson? v))
+    | [.str "other"] => pure .other
+    | _ => throw s!"bad annotation {j.compress}"
+  | _ => throw s!"bad annotation {j.compress}"
+
+/-- `c08.isvalueof`: `is_value_of(ann, w)` on the annotation as written, for a list of `[ann, value]` cases -/
+def isValueOfOp (j : Json) : R Json := do
+  let cases ← j.getObjValAs? (List Json) "cases"
+  let out ← cases.mapM fun c => do
+    match c with
+    | .arr a =>
+      match a.toList with
+      | [ann, v] => pure (toJson (isValueOfAnn (← parseAnnE ann) (← parsePyVal v)))
+      | _ => throw "bad case"
+    | _ => throw "bad case"
+  pure (Json.mkObj [("value_of", Json.arr out.toArray)])
+
+/-- `c08.readable`: can the translator read these declared types (annotations as written), under the given quirks -/
+def readableOp (j : Json) : R Json := do
+  let q := getQuirks j
+  let anns ← j.getObjValAs? (List Json) "anns"
+  let out ← anns.mapM fun a => do pure (toJson ((← parseAnnE a).readable q))
+  pure (Json.mkObj [("readable", Json.arr out.toArray)])
+
 def handle (op : String) (j : Json) : Option (R Json) :=
   match op with
+  | "c08.isvalueof" => some (isValueOfOp j)
+  | "c08.readable" => some (readableOp j)
   | "c08.bind" => some (bindOp j)
   | "c08.eval" => some (evalOp j)
   | "c08.toval" => some (tovalOp j)
